@@ -101,9 +101,6 @@ Definition group_partition (part : list Z) : list (list Z) := group_by part Z.eq
    Specification used by the theorems: the ascending compositions of n (partitions of
    n written as non-decreasing sequences) with all parts >= m, in lexicographic order.
    [fuel] bounds the recursion depth (n itself suffices). *)
-Fixpoint zrange (lo : Z) (cnt : nat) : list Z :=
-  match cnt with O => [] | S c => lo :: zrange (lo + 1) c end.
-
 Fixpoint asc_spec (fuel : nat) (m n : Z) : list (list Z) :=
   match fuel with
   | O => []
